@@ -12,6 +12,8 @@ parameter vector hits no `try_from().unwrap()` (C08); the codec does not hit the
 import Preflate.Proofs.Spec
 import Preflate.Proofs.HuffTree
 import Preflate.Proofs.ChainBounds
+import Preflate.Proofs.Estimator
+import Preflate.Proofs.Expands
 import Preflate.Props.C08
 import Preflate.Props.C10
 namespace Preflate
@@ -51,6 +53,22 @@ theorem chain_positions_in_u16_partial (p : Params) (hh : p.hashAlg ≠ 0) (lens
     (h4k : p.addPolicy = 3 → Chains.NoRefAt4k 0 lens) :
     Chains.RunSafe p (-8) 0 lens :=
   Proofs.chain_positions_in_u16_partial p hh lens hl h4k
+
+/-- the front part of the parameter estimator (extract_preflate_info, strategy / Huffman strategy,
+    window bits, block size, estimate_add_policy — Model/Estimator.lean, compared with the code by the
+    `estimate` requests) has no panic path on anything the parser returns: the only candidate, the u32
+    subtraction `current_offset - dist` of estimate_add_policy, cannot underflow because the parser
+    admits a reference only when its distance does not exceed the bytes produced -/
+theorem estimator_front_no_panic (d : List UInt8) (hd : d.length < 2 ^ 29) (p : Parsed)
+    (hp : parse d = .ok p) (m : String) : Est.front p.blocks ≠ .error (.panic m) := by
+  have hl := Proofs.length_bytesToBits d
+  exact Proofs.front_no_panic p.plain p.blocks (Proofs.parse_valid (bytesToBits d) (by omega) p hp).1 m
+
+/-- on ANY block list the front part ends in Ok or in that one panic: no other failure, no fuel -/
+theorem estimator_front_total (blocks : List Block) :
+    (∃ f, Est.front blocks = .ok f) ∨
+      Est.front blocks = .error (.panic "estimate_add_policy: subtract with overflow") :=
+  Proofs.front_total blocks
 
 variable {H : Type}
 
